@@ -15,6 +15,15 @@ Sub-checks
               (decided independently on the tester sets)
   witness     the witnesses of the *_refuted theorems (about the code before the fixes) replayed on the real code, which must
               now return the schedules' own distributions / Fisher matrices
+  history     one tomography object re-used across candidates, callers overwriting the returned arrays: predictions stay bit-identical,
+              the object's own experiment is not changed
+  boundary streams inside coeffs / forward / prob_dists: single-outcome testers, more outcomes than d^2, unknowns with 1 or 5 outcomes;
+              exactly-zero probabilities in first / middle positions (explicit pure testers and unknowns)
+
+Translator tie (regen_forward): gen/c08_py2coq.py regenerates Gallina definitions of the index / stacking logic (19 functions / statements:
+num_variables, num_outcomes, the four _set_coeffs, calc_c_qpt, cqpt_to_cqmpt, calc_matA, calc_vecB, the split of calc_prob_dists, the slice
+of calc_fisher_matrix, the loop of Experiment.calc_prob_dists) from the CURRENT source; coq/gen/C08_Equiv.v re-proves on every run that they
+equal the hand-written model for all inputs. When the tie breaks the sub-checks run with 4x the quick counts to find the failing input.
 """
 import itertools, random, warnings
 from fractions import Fraction
@@ -90,6 +99,20 @@ class Op:
 
     def vec(self, S):
         return np.array([np.trace(b.conj().T @ self.f).real for b in S["B"]], dtype=np.float64)
+
+
+def op_from_json(m):
+    """[[ [[re_num, re_den], [im_num, im_den]], ...], ...] -> Op"""
+    return Op([[(Fraction(e[0][0], e[0][1]), Fraction(e[1][0], e[1][1])) for e in row] for row in m])
+
+
+def op_json(rows):
+    """matrix of ints / Fractions / (re, im) pairs -> the JSON form read by op_from_json"""
+    def one(z):
+        re, im = z if isinstance(z, tuple) else (z, 0)
+        re, im = Fraction(re), Fraction(im)
+        return [[re.numerator, re.denominator], [im.numerator, im.denominator]]
+    return [[one(z) for z in row] for row in rows]
 
 
 def rand_gauss(rng, r, c, lo=-3, hi=3):
@@ -198,6 +221,10 @@ class Setup:
         self.m = int(cfg.get("m", 0))
         self.state_ops = [rand_state_op(rng, d) for _ in range(cfg.get("n_states", 0))]
         self.povm_ops = [rand_povm_ops(rng, d, mm) for mm in cfg.get("povm_ms", [])]
+        if "xstates" in cfg:            # explicit testers (boundary stream): exact Gaussian-rational operators, JSON-serialised
+            self.state_ops = [op_from_json(o) for o in cfg["xstates"]]
+        if "xpovms" in cfg:
+            self.povm_ops = [[op_from_json(o) for o in p] for p in cfg["xpovms"]]
         self.state_vecs = [o.vec(S) for o in self.state_ops]
         self.povm_vecs = [[o.vec(S) for o in p] for p in self.povm_ops]
         self.scheds = default_schedules(cfg) if cfg["sched"] == "all" else [list(s) for s in cfg["sched"]]
@@ -362,8 +389,33 @@ class Setup:
                 out.append(row)
         return out
 
+    def explicit_candidate(self, x):
+        """boundary stream: the unknown given explicitly. qst: one operator; povmt: list of effect operators; qpt: Kraus list;
+        qmpt: list (per outcome) of Kraus lists -- all JSON operators"""
+        S, t = self.S, self.typ
+        if t == "qst":
+            return op_from_json(x).vec(S)
+        if t == "povmt":
+            return [op_from_json(o).vec(S) for o in x]
+
+        def hs_of(kraus):
+            n = S["n"]
+            hs = np.zeros((n, n))
+            for Kj in kraus:
+                K = op_from_json(Kj).f
+                for bi, b in enumerate(S["B"]):
+                    img = K @ b @ K.conj().T
+                    for ai, a in enumerate(S["B"]):
+                        hs[ai, bi] += np.trace(a.conj().T @ img).real
+            return hs
+        if t == "qpt":
+            return hs_of(x)
+        return [hs_of(k) for k in x]
+
     def physical_candidate(self, nprng, mix=0.5):
         """an interior physical unknown (arrays)"""
+        if "xcand" in self.cfg:
+            return self.explicit_candidate(self.cfg["xcand"])
         S, t, m = self.S, self.typ, self.m
         d, n = S["d"], S["n"]
         rng = random.Random(int(nprng.integers(1 << 30)))
@@ -435,7 +487,7 @@ def gen_cfg(rng, typ, sys, sched_kind=None, mixed=None, big=False):
 
 def cfg_stream(ctx, n_quick, n_thorough, **kw):
     rng = ctx.rng
-    n = ctx.n(n_quick, n_thorough)
+    n = min(n_thorough, 4 * n_quick) if (getattr(ctx, "tie_broken", False) and ctx.quick) else ctx.n(n_quick, n_thorough)
     out = []
     for i in range(n):
         typ = TYPES[i % 4]
@@ -536,8 +588,57 @@ def malformed_cfgs(ctx, n):
     return out
 
 
+def boundary_cfgs(ctx, n):
+    """outcome counts the random stream does not draw: single-outcome testers (the identity), more outcomes than d^2, an unknown with 1 or 5
+    outcomes -- mixed with ordinary testers, any schedule kind"""
+    rng = ctx.rng
+    out = []
+    for i in range(n):
+        typ = TYPES[i % 4]
+        sys = "1q" if (ctx.quick or typ in ("qpt", "qmpt") or rng.random() < 0.7) else "3"
+        cfg = gen_cfg(rng, typ, sys)
+        if typ != "povmt":
+            k = len(cfg["povm_ms"])
+            cfg["povm_ms"] = [rng.choice([1, 1, 2, 5, 6] if sys == "1q" else [1, 2, 10]) for _ in range(k)]
+        if typ in ("povmt", "qmpt"):
+            cfg["m"] = rng.choice([1, 5]) if not cfg["para"] else 5
+            if typ == "qmpt" and sys != "1q":
+                cfg["m"] = 2
+        cfg["kind"] = cfg.get("kind", "") + "+boundary-counts"
+        out.append(cfg)
+    return out
+
+
+P0 = [[1, 0], [0, 0]]
+P1 = [[0, 0], [0, 1]]
+PP = [[Fraction(1, 2), Fraction(1, 2)], [Fraction(1, 2), Fraction(1, 2)]]
+PI = [[Fraction(1, 2), (0, Fraction(-1, 2))], [(0, Fraction(1, 2)), Fraction(1, 2)]]
+ZERO = [[0, 0], [0, 0]]
+HALF0 = [[Fraction(1, 2), 0], [0, 0]]
+HALF1 = [[0, 0], [0, Fraction(1, 2)]]
+ID2 = [[1, 0], [0, 1]]
+
+
+def zero_prob_cfgs():
+    """exactly representable boundary: pure testers / pure unknowns, so that outcome probabilities are EXACTLY zero in the first or a middle
+    position (never only in the last), a zero effect in the middle of a POVM, a projective unknown"""
+    J = op_json
+    povms = [[J(P1), J(P0)], [J(HALF0), J(P1), J(HALF0)], [J(P0), J(ZERO), J(P1)], [J(HALF1), J(P0), J(ZERO), J(HALF1)]]
+    states = [J(P0), J(P1), J(PP), J(PI)]
+    out = []
+    for para in (0, 1):
+        for cand in (P0, P1):
+            out.append({"typ": "qst", "sys": "1q", "para": para, "seed": 1, "povm_ms": [2, 3, 3, 4], "xpovms": povms, "sched": [[1], [0], [3], [2], [0]], "xcand": J(cand), "kind": "zero-prob"})
+        out.append({"typ": "povmt", "sys": "1q", "para": para, "seed": 1, "m": 2, "n_states": 4, "xstates": states, "sched": "all", "xcand": [J(P1), J(P0)], "kind": "zero-prob"})
+        out.append({"typ": "povmt", "sys": "1q", "para": para, "seed": 1, "m": 3, "n_states": 4, "xstates": states, "sched": [[1], [0], [3], [0]], "xcand": [J(P0), J(ZERO), J(P1)], "kind": "zero-prob"})
+        out.append({"typ": "qpt", "sys": "1q", "para": para, "seed": 1, "n_states": 4, "xstates": states, "povm_ms": [2, 3], "xpovms": povms[:2], "sched": "all", "xcand": [J(ID2)], "kind": "zero-prob"})
+        out.append({"typ": "qmpt", "sys": "1q", "para": para, "seed": 1, "m": 2, "n_states": 2, "xstates": states[:2], "povm_ms": [2, 3], "xpovms": povms[:2], "sched": "all",
+                    "xcand": [[J(P1)], [J(P0)]], "kind": "zero-prob"})
+    return out
+
+
 def sub_coeffs(ctx):
-    cases = cfg_stream(ctx, 60, 1200) + malformed_cfgs(ctx, ctx.n(8, 80))
+    cases = cfg_stream(ctx, 60, 1200) + malformed_cfgs(ctx, ctx.n(8, 80)) + boundary_cfgs(ctx, ctx.n(8, 80))
     ctx.sample("coeffs", cases[0]); ctx.sample("coeffs", cases[-3])
     ctx.run_cases("coeffs", chk_coeffs, cases)
 
@@ -658,7 +759,7 @@ def _forward_one(ctx, cfg, setup, A, b, counts, site, attr, eps, tag, v):
 
 
 def sub_forward(ctx):
-    cases = cfg_stream(ctx, 48, 900)
+    cases = cfg_stream(ctx, 48, 900) + boundary_cfgs(ctx, ctx.n(8, 60))
     for c in cases:
         heavy = c["sys"] != "1q" and c["typ"] in ("qpt", "qmpt")
         c["n_basis"] = 3 if heavy else (6 if ctx.quick else 40)
@@ -703,7 +804,9 @@ def chk_prob_dists(ctx, cfg):
     vals = m.call(op, zs, qs)
     rows = int(vals[0])
     born = split(fl(vals[1 + rows:]), counts)
-    if any(abs(p - eps) < 1e-9 or p < 1e-9 for r in born for p in r):
+    # truncate_and_normalize zeroes entries < eps (1e-13): the float prediction and the exact one can only decide differently when the
+    # exact value is within rounding noise of eps; exact zeros / tiny negatives are decided alike on both sides and ARE compared
+    if any(abs(p - eps) < 1e-14 for r in born for p in r) or any(sum(x for x in r if x >= eps) < 1e-6 for r in born):
         ctx.count("prob_dists", key=repr(cfg), nontrivial=False, label="next-to-truncation-threshold")
         return
     expected = [trunc_norm(r, eps) for r in born]
@@ -719,7 +822,8 @@ def chk_prob_dists(ctx, cfg):
         ctx.violation("prob_dists", "Model/C08_Forward.v", "theorem-instance", "model: calc_prob_dists rows (lengths %s) are not the schedules' Born distributions (lengths %s)" % (lens, counts), case)
         return
     impl = impl_prob_dists(qt, obj)
-    ctx.count("prob_dists", key=repr(cfg), nontrivial=True, label="%s-%s-%s" % (typ, "mixed" if mixed else "equal", impl[2] if impl[0] == "ok" else "raises"))
+    zero = any(p < eps for r in born for p in r)
+    ctx.count("prob_dists", key=repr(cfg), nontrivial=True, label="%s-%s-%s%s" % (typ, "mixed" if mixed else "equal", impl[2] if impl[0] == "ok" else "raises", "-with-zero-probability" if zero else ""))
     # --- the property: row j must be the Born distribution of schedule j (== the model, by the theorem instance above)
     if impl[0] != "ok" or not rows_match(impl[1], expected):
         what = ("raises ValueError (%s)" % impl[1][:80]) if impl[0] == "err" else "returns rows %s, the schedules' Born distributions are %s" % ([np.round(r, 6).tolist() for r in impl[1]], [np.round(e, 6).tolist() for e in expected])
@@ -792,6 +896,7 @@ def sub_prob_dists(ctx):
                 sch.insert(rng.randrange(len(sch) + 1), list(rng.choice(other)))
                 cfg["sched"] = sch; cfg["kind"] = cfg.get("kind", "") + "+mixed"
         cases.append(cfg)
+    cases += boundary_cfgs(ctx, ctx.n(8, 60)) + zero_prob_cfgs()
     ctx.sample("prob_dists", cases[0])
     ctx.run_cases("prob_dists", chk_prob_dists, cases)
 
@@ -960,6 +1065,86 @@ def sub_witness(ctx):
     ctx.run_cases("witness", chk_witness, WITNESSES)
 
 
+# ------------------------------------------------------------------ sub-check: one tomography object re-used across calls
+def chk_history(ctx, cfg):
+    """the forward model of ONE tomography object must predict the same (Born) distributions for a candidate before and after the object was
+    used with other candidates, after its returned arrays were overwritten by the caller, and generate_prob_dists_sequence must not leave the
+    candidate inside the object's own experiment"""
+    setup = Setup(cfg)
+    if setup.qt is None:
+        raise setup.impl_error
+    qt, typ = setup.qt, cfg["typ"]
+    from quara.settings import Settings
+    eps = Settings.get_atol()
+    nprng = np.random.default_rng(cfg["seed"] + 7)
+    counts = setup.counts()
+    arrs1 = setup.physical_candidate(nprng, mix=0.6); arrs2 = setup.physical_candidate(nprng, mix=0.9)
+    v1 = np.array([float(x) for x in setup.var_of_arrays(arrs1)])
+    obj1, obj2 = setup.quara_object(arrs1), setup.quara_object(arrs2)
+    m = ctx.get_model()
+    op, zs, qs = setup.request(1, var=v1.tolist())
+    vals = m.call(op, zs, qs)
+    rows = int(vals[0])
+    born = split(fl(vals[1 + rows:]), counts)
+    if any(abs(p - eps) < 1e-14 for r in born for p in r):
+        ctx.count("history", key=repr(cfg), nontrivial=False, label="next-to-truncation-threshold")
+        return
+    expected = [trunc_norm(r, eps) for r in born]
+    exp_ = qt._experiment
+    attr = {"qst": "states", "povmt": "povms", "qpt": "gates", "qmpt": "mprocesses"}[typ]
+    slots0 = [id(x) for x in getattr(exp_, attr)]
+    sched0 = [list(sc) for sc in exp_.schedules]
+    with warnings.catch_warnings():
+        warnings.simplefilter("ignore")
+        A0, b0 = np.array(qt.calc_matA(), dtype=float), np.array(qt.calc_vecB(), dtype=float)
+        p1 = impl_prob_dists(qt, obj1)
+        s1 = [np.array(x, dtype=float) for x in qt.generate_prob_dists_sequence(obj1)]
+        case = dict(cfg, var=v1.tolist())
+        ctx.count("history", key=repr(cfg), nontrivial=True, label="%s-%s" % (typ, "mixed" if len(set(counts)) > 1 else "equal"))
+        if p1[0] != "ok" or not rows_match(p1[1], expected):
+            ctx.violation("history", "StandardQTomography.calc_prob_dists", "value", "first call: calc_prob_dists differs from the Born distributions", case)
+            return
+        # ---- the history: other candidates, callers overwriting what they were given
+        ops = ["prob2", "seq2", "clobber", "fisher", "prob2"]
+        random.Random(cfg["seed"]).shuffle(ops)
+        for o in ops:
+            if o == "prob2":
+                r = impl_prob_dists(qt, obj2)
+                if r[0] == "ok":
+                    raw = qt.calc_prob_dists(obj2)
+                    for row in raw:
+                        row[...] = 0.0                      # the caller overwrites the returned distributions
+            elif o == "seq2":
+                for row in qt.generate_prob_dists_sequence(obj2):
+                    np.asarray(row)[...] = 0.0
+            elif o == "clobber":
+                qt.calc_matA()[...] = 7.0; qt.calc_vecB()[...] = 7.0
+            elif o == "fisher" and setup.para and min(min(r) for r in born) > 1e-6:
+                qt.calc_fisher_matrix(int(nprng.integers(len(counts))), v1)[...] = 0.0
+        A1, b1 = np.array(qt.calc_matA(), dtype=float), np.array(qt.calc_vecB(), dtype=float)
+        p1b = impl_prob_dists(qt, obj1)
+        s1b = [np.array(x, dtype=float) for x in qt.generate_prob_dists_sequence(obj1)]
+    if A1.shape != A0.shape or not np.array_equal(A1, A0) or not np.array_equal(b1, b0):
+        ctx.violation("history", "StandardQTomography.calc_matA", "history-changes-result", "matA / vecB changed after the object was used with another candidate (history %s)" % ops, case)
+    if p1b[0] != "ok" or not rows_match(p1b[1], expected) or not rows_match(p1b[1], p1[1], 0.0 + 1e-300):
+        ctx.violation("history", "StandardQTomography.calc_prob_dists", "history-changes-result", "calc_prob_dists(obj) after the history %s differs from its first result / the Born distributions" % ops, case)
+    if len(s1b) != len(s1) or any(a.shape != b.shape or not np.array_equal(a, b) for a, b in zip(s1, s1b)):
+        ctx.violation("history", "StandardQTomography.generate_prob_dists_sequence", "history-changes-result", "generate_prob_dists_sequence(obj) changed after the history %s" % ops, case)
+    if [id(x) for x in getattr(exp_, attr)] != slots0 or [list(sc) for sc in exp_.schedules] != sched0:
+        ctx.violation("history", "StandardQTomography.generate_prob_dists_sequence", "mutates-experiment", "the tomography object's own experiment (%s / schedules) was changed by the calls %s" % (attr, ops), case)
+
+
+def sub_history(ctx):
+    rng = ctx.rng
+    cases = []
+    for i in range(ctx.n(12, 120)):
+        typ = TYPES[i % 4]
+        sys = "1q" if (ctx.quick or typ in ("qpt", "qmpt") or rng.random() < 0.7) else "3"
+        cases.append(gen_cfg(rng, typ, sys, mixed=(None if typ == "povmt" else (i % 2 == 0))))
+    ctx.sample("history", cases[0])
+    ctx.run_cases("history", chk_history, cases)
+
+
 # ------------------------------------------------------------------ sub-check: the ensemble path of compose(povm, mprocess, state)
 def chk_ensemble(ctx, case):
     """model: p_x * <pv, HS s / p_x> == <pv, HS s> (theorem C08_ensemble_path) executed, and against quara's compose on a physical instance"""
@@ -1000,11 +1185,65 @@ def sub_ensemble(ctx):
 
 
 SUBS = [("witness", sub_witness), ("coeffs", sub_coeffs), ("forward", sub_forward), ("prob_dists", sub_prob_dists),
-        ("rank", sub_rank), ("ensemble", sub_ensemble)]
-FNS = {"witness": chk_witness, "coeffs": chk_coeffs, "forward": chk_forward, "prob_dists": chk_prob_dists, "rank": chk_rank, "ensemble": chk_ensemble}
+        ("rank", sub_rank), ("ensemble", sub_ensemble), ("history", sub_history)]
+FNS = {"witness": chk_witness, "coeffs": chk_coeffs, "forward": chk_forward, "prob_dists": chk_prob_dists, "rank": chk_rank, "ensemble": chk_ensemble, "history": chk_history}
+
+
+def regen_forward(ctx):
+    """translator tie (same protocol as flow.regen_check, with this property's own translator gen/c08_py2coq.py): regenerate Gallina
+    definitions of the index / stacking logic of the forward model (18 functions / statements, listed in coq/gen/C08_Equiv.v) from the
+    CURRENT source, compile them, and re-check coq/gen/C08_Equiv.v (regenerated == hand-written model for all inputs; the forward
+    theorems transported to the regenerated code). returns (ok, info)"""
+    import os, re, shutil, subprocess, sys
+    import runner
+    V = runner.V
+    scratch = os.path.join(getattr(ctx, "scratch", os.path.join(V, "build", ctx.prop_id)), "gen")
+    os.makedirs(scratch, exist_ok=True)
+    gen_v = os.path.join(scratch, "Gen_c08_forward.v")
+    for stem in (gen_v[:-2], os.path.join(scratch, "C08_Equiv")):
+        for ext in (".vo", ".vos", ".vok", ".glob"):
+            try:
+                os.remove(stem + ext)
+            except OSError:
+                pass
+    equiv = os.path.join(V, "coq", "gen", "C08_Equiv.v")
+    src = open(equiv).read()
+    src_nc = re.sub(r"\(\*.*?\*\)", " ", src, flags=re.S)
+    thms = re.findall(r"^\s*Theorem\s+([\w']+)", src_nc, flags=re.M)
+    ctx.theorems = list(ctx.theorems) + [t for t in thms if t not in ctx.theorems]
+    ctx.obligations += len(thms)
+    r = subprocess.run([sys.executable, os.path.join(V, "gen", "c08_py2coq.py"), os.environ.get("VERIF_REPO", "/repo"), gen_v],
+                       capture_output=True, text=True, timeout=120)
+    if r.returncode != 0:
+        return False, {"theorem": thms[0], "error": "translator rejected the source (outside its subset): " + (r.stdout + r.stderr)[-600:]}
+    q = ["-Q", os.path.join(V, "coq", "theories"), "QV", "-Q", scratch, "QVGen"]
+    r = subprocess.run(["timeout", "300", "coqc"] + q + [gen_v], capture_output=True, text=True)
+    if r.returncode != 0:
+        return False, {"theorem": thms[0], "error": "regenerated definitions do not compile: " + (r.stdout + r.stderr)[-600:]}
+    dst = os.path.join(scratch, "C08_Equiv.v")
+    shutil.copy(equiv, dst)
+    r = subprocess.run(["timeout", "600", "coqc"] + q + [dst], capture_output=True, text=True)
+    out = r.stdout + r.stderr
+    if r.returncode != 0:
+        m_ = re.search(r"line (\d+), characters", out)
+        thm = None
+        if m_:
+            upto = "\n".join(src.splitlines()[:int(m_.group(1))])
+            names = re.findall(r"^\s*(?:Theorem|Lemma)\s+([\w']+)", upto, flags=re.M)
+            thm = names[-1] if names else None
+        return False, {"theorem": thm, "error": out[-800:]}
+    blocks = runner.parse_assumptions(out)
+    bad = [a for closed, axs in blocks for a in axs if a not in runner.ALLOWED_AXIOMS and a.split(".")[-1] not in runner.ALLOWED_AXIOMS]
+    if len(blocks) != len(thms) or bad:
+        return False, {"theorem": thms[0], "error": "assumption gate on regenerated proofs: %d blocks / %d theorems, disallowed %s" % (len(blocks), len(thms), bad)}
+    for t, (closed, axs) in zip(thms, blocks):
+        ctx.axioms[t] = "closed" if closed else sorted(set(axs))
+    ctx.discharged += len(thms)
+    return True, {}
 
 
 def run(ctx):
+    import runner
     ctx.rule = ("configurations: tomography type x system (1 qubit Pauli / qutrit Gell-Mann / 2 qubits Pauli) x flag x unknown outcome count 2..4 x "
                 "random physical testers built from small Gaussian-integer matrices (exactly rational operators; POVM outcome counts drawn from 2..4 "
                 "independently, so mostly mixed) x schedule list (default / permutation / subset / with repetitions; plus a malformed stream with an "
@@ -1015,8 +1254,27 @@ def run(ctx):
                        "operator-level Born rule tr(E rho) is checked numerically per case (orthonormal Hermitian basis validated by the harness), "
                        "not proved here (C02/C06)",
                        "C08: truncate_and_normalize is the identity on valid distributions (proved: C08_trunc_norm_valid); for candidates whose Born "
-                       "vector is not a distribution quara's composed circuit is compared after the same truncation/normalisation"]
-    flow.standard_run(ctx, SUBS)
+                       "vector is not a distribution quara's composed circuit is compared after the same truncation/normalisation",
+                       "C08 translator tie: typing table and abstractions of gen/c08_py2coq.py (State = its .vec, Povm = its .vecs, a schedule = the list "
+                       "of its item indices, np.sqrt(dim) -> sd, int(dim*dim) -> vec_size, rank tests decided by declared types, never-read variables dropped)"]
+    # flow.standard_run with this property's own translator tie (flow.regen_check is bound to gen/py2coq.py)
+    ok, info = runner.check_props(ctx)
+    ok2, info2 = regen_forward(ctx)
+    if not ok2:
+        ok, info = False, info2
+        ctx.tie_broken = True       # the correspondence sub-checks then run with the thorough-tier case counts (search for a failing input)
+        ctx.note("regenerated-model obligations (coq/gen/C08_Equiv.v) not discharged: %s" % str(info2)[:400])
+    if not ok:
+        ctx.discharged = min(ctx.discharged, ctx.obligations - 1)
+    for name, fn in SUBS:
+        if ctx.only is None or name in ctx.only:
+            fn(ctx)
+    if not ok and not ctx.violations:
+        ctx.violation("theorems", "Props/%s.v" % ctx.prop_id, "theorem-broken:%s" % info.get("theorem"),
+                      "theorem %s no longer checks: %s" % (info.get("theorem"), info.get("error", "")[-400:]),
+                      {"theorem": info.get("theorem"), "error": info.get("error")}, no_input=True)
+    elif not ok:
+        ctx.note("theorem obligations not discharged: %s" % info)
 
 
 def replay(ctx, doc):
